@@ -1,10 +1,19 @@
 #!/bin/sh
-# tools/seedrun.sh <Cxx> [extra check ids...]: import /tmp/seedout/<Cxx> into seeded/<Cxx> and run every mutation
-# against check <Cxx> (and the extra ids) in a sandboxed copy; results in seeded/<Cxx>/<mN>/result.txt
-id="$1"; shift
-[ -d /tmp/seedout/$id ] && { mkdir -p /verif/seeded/$id; cp -r /tmp/seedout/$id/. /verif/seeded/$id/; }
-for d in /verif/seeded/$id/m*; do
+# tools/seedrun.sh <Cxx> [round]: import the seeded mutations of <Cxx> (round 1: /tmp/seedout/<Cxx>/mN -> seeded/<Cxx>/mN;
+# round 2: /tmp/seedout2/<Cxx>/mN -> seeded/<Cxx>/r2mN) and run each against check <Cxx> in a sandboxed copy
+# (tools/sbx.sh); results in seeded/<Cxx>/<name>/result.txt
+id="$1"; round="${2:-1}"
+mkdir -p /verif/seeded/$id
+if [ "$round" = 1 ]; then
+  [ -d /tmp/seedout/$id ] && cp -r /tmp/seedout/$id/. /verif/seeded/$id/
+  pat='m[0-9]*'
+else
+  for d in /tmp/seedout$round/$id/m*; do [ -d "$d" ] && { rm -rf /verif/seeded/$id/r${round}$(basename $d); cp -r $d /verif/seeded/$id/r${round}$(basename $d); }; done
+  pat="r${round}m[0-9]*"
+fi
+for d in /verif/seeded/$id/$pat; do
+  [ -f $d/patch.diff ] || continue
   m=$(basename $d)
-  /verif/tools/sbx.sh $id-$m $d/patch.diff $id "$@" > $d/result.txt 2>&1
-  cat $d/result.txt
+  /verif/tools/sbx.sh $id-$m $d/patch.diff $id > $d/result.txt 2>&1
+  grep "rc=" $d/result.txt
 done
